@@ -23,6 +23,9 @@ CLAIMED["C07"]=("Bounded symbolic execution of the real evaluator over 25 progra
 CLAIMED["C08"]=("Bounded symbolic execution of the real evaluator over 26 templates with side-effecting slots, in which the iteration order of every Go map (2..4 entries) touched during evaluation is chosen by the solver: on every feasible order z3 discharges that the slots run exactly once in source order and that the result prints identically (first occurrence wins, documented key orders). Covers every hash-table layout within the bound instead of the handful a test run happens to see.",
         TRUST+" The list of audited order-insensitive map loops is part of the claim (evidence.assumptions).",
         "SMT-decided bounded symbolic execution of go/ssa with solver-chosen Go map iteration order (z3)")
+CLAIMED["C18"]=("Bounded symbolic execution of the real ==, !=, <=> built-ins and the native Comparable/BaseObj/Iterable sources through parsed programs: operands of 14 value kinds with symbolic payloads (any int64, any float64 bit pattern, ...); on every feasible path z3 discharges reflexivity (except NaN), symmetry, != as negation, trichotomy, <=/>= as unions, antisymmetry of <=>, agreement of max/min/between?/clip, and transitivity on triples. Counterexamples with a NaN operand are a recorded known finding.",
+        TRUST,
+        "SMT-decided bounded symbolic execution of go/ssa (z3, bit-vectors + FP)")
 NA={
 }
 DEFAULT_NA="check under construction in this session (engine exists; harness not yet registered)"
